@@ -58,16 +58,16 @@ var guardTable = map[string]string{
 	"bloomfilter.BloomFilter.bits":                                  "bloomfilter.BloomFilter.mu",
 	"bloomfilter.BloomFilter.insertions":                            "bloomfilter.BloomFilter.mu",
 	// replication: reported as info (outside the property's quantifier)
-	"replication.Primary.sessions":                 "replication.Primary.mu",
-	"replication.Primary.lastSyncedSeq":            "replication.Primary.mu",
-	"replication.WALBatchApplier.maxAppliedSeq":    "replication.WALBatchApplier.mu",
-	"replication.WALBatchApplier.expectedNextSeq":  "replication.WALBatchApplier.mu",
-	"replication.WALBatchApplier.lastAckSeq":       "replication.WALBatchApplier.mu",
-	"replication.Replica.lastAppliedSeq":           "replication.Replica.mu",
-	"replication.ReplicaSession.Connected":         "replication.ReplicaSession.mu",
-	"replication.ReplicaSession.Active":            "replication.ReplicaSession.mu",
-	"replication.ReplicaSession.LastActivity":      "replication.ReplicaSession.mu",
-	"replication.ReplicaSession.LastAckSequence":   "replication.ReplicaSession.mu",
+	"replication.Primary.sessions":                "replication.Primary.mu",
+	"replication.Primary.lastSyncedSeq":           "replication.Primary.mu",
+	"replication.WALBatchApplier.maxAppliedSeq":   "replication.WALBatchApplier.mu",
+	"replication.WALBatchApplier.expectedNextSeq": "replication.WALBatchApplier.mu",
+	"replication.WALBatchApplier.lastAckSeq":      "replication.WALBatchApplier.mu",
+	"replication.Replica.lastAppliedSeq":          "replication.Replica.mu",
+	"replication.ReplicaSession.Connected":        "replication.ReplicaSession.mu",
+	"replication.ReplicaSession.Active":           "replication.ReplicaSession.mu",
+	"replication.ReplicaSession.LastActivity":     "replication.ReplicaSession.mu",
+	"replication.ReplicaSession.LastAckSequence":  "replication.ReplicaSession.mu",
 }
 
 // guardExempt: named exceptions, one reason each (function → reason); key "<field>@<function>".
@@ -420,7 +420,9 @@ func ruleLockOrder(c *Ctx, r *Reporter) {
 	r.Rule("lock-order", 1)
 	edges := c.LockGraph()
 	cycles := lockCycles(dedupeLockPairs(edges))
-	inScopeLock := func(id string) bool { return !strings.HasPrefix(id, "replication.") && !strings.HasPrefix(id, "client.") && !strings.HasPrefix(id, "service.") }
+	inScopeLock := func(id string) bool {
+		return !strings.HasPrefix(id, "replication.") && !strings.HasPrefix(id, "client.") && !strings.HasPrefix(id, "service.")
+	}
 	n := 0
 	for _, cyc := range cycles {
 		all := true
